@@ -16,8 +16,10 @@ VERIF = os.path.dirname(os.path.dirname(os.path.abspath(__file__)))
 def target(path):
     base = os.path.basename(path)
     if "/seeded/" in path:
-        meta = os.path.join(os.path.dirname(path), "meta.json")
-        return json.load(open(meta))["property"]
+        meta = json.load(open(os.path.join(os.path.dirname(path), "meta.json")))
+        # the check that reported the change when it was adopted (normally the property's own check)
+        hits = [k for k, v in meta.get("check_verdicts_when_adopted", {}).items() if v.get("exit") == 1]
+        return meta["property"] if (not hits or meta["property"] in hits) else hits[0]
     return base[:3].upper()
 
 
